@@ -5,7 +5,8 @@ import KcpVerif.Lemmas.C01SessFrg
 The composition for `C11_isolation`: the listener model `Model/SessIn` with its opaque session state
 `σ` instantiated by the concrete session model `Model/Sess` (with the ghost history of
 `Lemmas/C01SessSys`: bytes returned by `Read`, bytes accepted by `WriteBuffers`, datagrams emitted),
-configuration without cipher and FEC, the clock an input of every step:
+configuration without FEC, any cipher at the listener's integrity gate (a genuine datagram `d` arrives
+as any `wrap d` the gate opens to `d`; `plain` = no cipher), the clock an input of every step:
 
     kcpInput := fun x d => sessStep x (.input d now)      -- `(Sess.packetInput x.s d now).s` + ghosts
     init     := fun conv => { s := Sess.new conv }         -- `newUDPSession(conv, …)`
@@ -34,13 +35,13 @@ theorem gate_plain (d : Bytes) : cryptGate plain d = .ok d := rfl
 /-- `Listener.packetInput` at clock `now`, also for a listener that has been closed: the `l.die`
 test sits after the old session's `Close` and before `newUDPSession`, so a closed listener still
 routes, ignores and closes but creates nothing -/
-def inputD (now : U32) (l : Listener SessG) (dead : Bool) (d : Bytes) (a : String) : Listener SessG :=
+def inputD (ciph : Cipher) (now : U32) (l : Listener SessG) (dead : Bool) (d : Bytes) (a : String) : Listener SessG :=
   if dead then
-    match (listenerInput (world now) plain l d a).dec with
+    match (listenerInput (world now) ciph l d a).dec with
     | .create _ _ (some old) _ => closeSess (world now) l old
     | .create _ _ none _ => l
-    | _ => (listenerInput (world now) plain l d a).l
-  else (listenerInput (world now) plain l d a).l
+    | _ => (listenerInput (world now) ciph l d a).l
+  else (listenerInput (world now) ciph l d a).l
 
 /-- `closeUnaccepted`: close every session still in the accept backlog -/
 def closeAll (now : U32) (l : Listener SessG) : List Nat → Listener SessG
@@ -72,8 +73,10 @@ inductive IEv where
   | client (a : String) (c : U32) (op : SessOp)
   /-- the network hands the listener, with source address `a`, the `i`-th datagram the client of
       conversation `c` at `a` has emitted so far — current or previous conversation, any later time,
-      any number of times, in any order, or never -/
-  | deliver (a : String) (c : U32) (i : Nat) (now : U32)
+      any number of times, in any order, or never.  `wrap` is what the sender's `postProcess` (nonce,
+      CRC / Seal, encryption) and the network did to it: the event takes place iff the listener's
+      integrity gate opens `wrap d` to `d` (no cipher: `wrap = id`) -/
+  | deliver (a : String) (c : U32) (i : Nat) (wrap : Bytes → Bytes) (now : U32)
   /-- ARBITRARY bytes with source address `b`; ignored by the step function when `b` is honest -/
   | forge (b : String) (data : Bytes) (now : U32)
   | accept
@@ -84,7 +87,7 @@ inductive IEv where
   | sess (id : Nat) (op : SessOp)
   | listenerClose (now : U32)
 
-def step (honest : String → Bool) (s : Sys) : IEv → Sys
+def step (ciph : Cipher) (honest : String → Bool) (s : Sys) : IEv → Sys
   | .connect a c =>
     match s.clients a c with
     | some _ => s
@@ -93,14 +96,14 @@ def step (honest : String → Bool) (s : Sys) : IEv → Sys
     match s.clients a c with
     | none => s
     | some g => { s with clients := setClient s.clients a c (sessStep g op) }
-  | .deliver a c i now =>
+  | .deliver a c i wrap now =>
     match s.clients a c with
     | none => s
     | some g =>
       match g.wire[i]? with
       | none => s
-      | some d => { s with l := inputD now s.l s.dead d a }
-  | .forge b data now => if honest b then s else { s with l := inputD now s.l s.dead data b }
+      | some d => if cryptGate ciph (wrap d) = .ok d then { s with l := inputD ciph now s.l s.dead (wrap d) a } else s
+  | .forge b data now => if honest b then s else { s with l := inputD ciph now s.l s.dead data b }
   | .accept =>
     match (SessIn.accept s.l).got with
     | none => s
@@ -109,7 +112,7 @@ def step (honest : String → Bool) (s : Sys) : IEv → Sys
   | .sess id op => if isSessInput op then s else { s with l := appSess s.l id (fun x => sessStep x op) }
   | .listenerClose now => if s.dead then s else { s with l := listenerClose now s.l, dead := true }
 
-def run (honest : String → Bool) (s : Sys) (evs : List IEv) : Sys := evs.foldl (step honest) s
+def run (ciph : Cipher) (honest : String → Bool) (s : Sys) (evs : List IEv) : Sys := evs.foldl (step ciph honest) s
 
 /-! ### the peer relation -/
 
@@ -198,27 +201,25 @@ theorem WF_closeAll (now : U32) (ids : List Nat) :
   | cons id rest ih => intro l h h2; exact ih _ (WF_closeSess _ l id h) (WF2_closeSess _ l id h2)
 
 /-- every object after `inputD` -/
-theorem inputD_obj (now : U32) (l : Listener SessG) (dead : Bool) (d : Bytes) (a : String) (j : Nat)
-    (o' : SessIn.Sess SessG) (hj : (inputD now l dead d a).objs[j]? = some o') :
+theorem inputD_obj (ciph : Cipher) (now : U32) (l : Listener SessG) (dead : Bool) (d : Bytes) (a : String) (j : Nat)
+    (o' : SessIn.Sess SessG) (hj : (inputD ciph now l dead d a).objs[j]? = some o') :
     l.objs[j]? = some o' ∨
     (∃ o, l.objs[j]? = some o ∧ o' = { o with st := (world now).closeFx o.st, closed := true }) ∨
-    (∃ h, minPacket ≤ d.length ∧ parseHdr d = some h ∧ Fate (world now) l d a h j o') := by
-  have live : (listenerInput (world now) plain l d a).l.objs[j]? = some o' →
+    (∃ p h, cryptGate ciph d = .ok p ∧ minPacket ≤ p.length ∧ parseHdr p = some h ∧ Fate (world now) l p a h j o') := by
+  have live : (listenerInput (world now) ciph l d a).l.objs[j]? = some o' →
       l.objs[j]? = some o' ∨
       (∃ o, l.objs[j]? = some o ∧ o' = { o with st := (world now).closeFx o.st, closed := true }) ∨
-      (∃ h, minPacket ≤ d.length ∧ parseHdr d = some h ∧ Fate (world now) l d a h j o') := by
+      (∃ p h, cryptGate ciph d = .ok p ∧ minPacket ≤ p.length ∧ parseHdr p = some h ∧ Fate (world now) l p a h j o') := by
     intro hj
-    rcases listenerInput_obj (world now) plain l d a j o' hj with h1 | ⟨p, h, hg, hm, hp, hf⟩
+    rcases listenerInput_obj (world now) ciph l d a j o' hj with h1 | ⟨p, h, hg, hm, hp, hf⟩
     · exact Or.inl h1
-    · rw [gate_plain] at hg
-      cases hg
-      exact Or.inr (Or.inr ⟨h, hm, hp, hf⟩)
+    · exact Or.inr (Or.inr ⟨p, h, hg, hm, hp, hf⟩)
   unfold inputD at hj
   cases dead with
   | false => exact live hj
   | true =>
     simp only [if_true] at hj
-    cases hdec : (listenerInput (world now) plain l d a).dec with
+    cases hdec : (listenerInput (world now) ciph l d a).dec with
     | create x1 x2 old x4 =>
       rw [hdec] at hj
       cases old with
@@ -232,8 +233,8 @@ theorem inputD_obj (now : U32) (l : Listener SessG) (dead : Bool) (d : Bytes) (a
     | route x1 x2 => rw [hdec] at hj; exact live hj
     | closedOnly x1 x2 => rw [hdec] at hj; exact live hj
 
-theorem WF_inputD (now : U32) (l : Listener SessG) (dead : Bool) (d : Bytes) (a : String) (h : WF l) (h2 : WF2 l) :
-    WF (inputD now l dead d a) ∧ WF2 (inputD now l dead d a) := by
+theorem WF_inputD (ciph : Cipher) (now : U32) (l : Listener SessG) (dead : Bool) (d : Bytes) (a : String) (h : WF l)
+    (h2 : WF2 l) : WF (inputD ciph now l dead d a) ∧ WF2 (inputD ciph now l dead d a) := by
   unfold inputD
   cases dead with
   | false => exact ⟨WF_listenerInput _ _ l d a h, WF2_listenerInput _ _ l d a h h2⟩
@@ -244,14 +245,16 @@ theorem WF_inputD (now : U32) (l : Listener SessG) (dead : Bool) (d : Bytes) (a 
     · exact ⟨h, h2⟩
     · exact ⟨WF_listenerInput _ _ l d a h, WF2_listenerInput _ _ l d a h h2⟩
 
-/-- a datagram: from an honest address it is one its client has emitted, from any other address it
-is anything -/
+/-- a datagram: from an honest address the gate opens it to a datagram its client has emitted, from any
+other address it is anything -/
 theorem InvL_inputD {honest : String → Bool} {cl : String → U32 → Option SessG} {l : Listener SessG}
-    (hw : WireOk) (hwf : WF l) (h : InvL honest cl l) (hc : InvC cl) (now : U32) (dead : Bool) (d : Bytes) (a : String)
-    (hsrc : honest a = true → ∃ (c : U32) (g : SessG) (i : Nat), cl a c = some g ∧ g.wire[i]? = some d) :
-    InvL honest cl (inputD now l dead d a) := by
+    (hw : WireOk) (hwf : WF l) (h : InvL honest cl l) (hc : InvC cl) (ciph : Cipher) (now : U32) (dead : Bool)
+    (data : Bytes) (a : String)
+    (hsrc : honest a = true → ∃ (c : U32) (g : SessG) (i : Nat) (d : Bytes), cl a c = some g ∧ g.wire[i]? = some d ∧
+      cryptGate ciph data = .ok d) :
+    InvL honest cl (inputD ciph now l dead data a) := by
   intro j o' hj hh
-  rcases inputD_obj now l dead d a j o' hj with h1 | ⟨o, ho, ho'⟩ | ⟨hd, hm, hp, hf⟩
+  rcases inputD_obj ciph now l dead data a j o' hj with h1 | ⟨o, ho, ho'⟩ | ⟨d, hd, hgate, hm, hp, hf⟩
   · exact h j o' h1 hh
   · rw [ho'] at hh ⊢
     obtain ⟨g, hg, hpe⟩ := h j o ho hh
@@ -259,7 +262,8 @@ theorem InvL_inputD {honest : String → Bool} {cl : String → U32 → Option S
   · -- what an honest source's datagram parses to
     have genuine : honest a = true → ∃ (c : U32) (g : SessG) (i : Nat), cl a c = some g ∧ g.wire[i]? = some d ∧ hd.hasConv = true ∧ hd.conv = c := by
       intro ha
-      obtain ⟨c, g, i, hg, hi⟩ := hsrc ha
+      obtain ⟨c, g, i, d', hg, hi, hgd⟩ := hsrc ha
+      rw [hgate] at hgd; cases hgd
       obtain ⟨hist, hgh⟩ := hc a c g hg
       have hmem : d ∈ (sessRun { s := Sess.new c } hist).wire := by
         rw [← hgh]; exact List.mem_of_getElem? hi
@@ -328,8 +332,8 @@ theorem sessRun_snoc (x : SessG) (h : List SessOp) (op : SessOp) : sessRun x (h 
 
 /-! ### every step -/
 
-theorem inv_step {honest : String → Bool} (hw : WireOk) {s : Sys} (h : Inv honest s) (e : IEv) :
-    Inv honest (step honest s e) := by
+theorem inv_step (ciph : Cipher) {honest : String → Bool} (hw : WireOk) {s : Sys} (h : Inv honest s) (e : IEv) :
+    Inv honest (step ciph honest s e) := by
   cases e with
   | connect a c =>
     cases hc : s.clients a c with
@@ -357,7 +361,7 @@ theorem inv_step {honest : String → Bool} (hw : WireOk) {s : Sys} (h : Inv hon
         rw [he.2]
         exact ⟨hist ++ [op], by rw [sessRun_snoc, ← hh]⟩
       · rw [if_neg he] at hg; exact h.cls a' c' g' hg
-  | deliver a c i now =>
+  | deliver a c i wrap now =>
     cases hc : s.clients a c with
     | none => simp only [step, hc]; exact h
     | some g =>
@@ -365,17 +369,20 @@ theorem inv_step {honest : String → Bool} (hw : WireOk) {s : Sys} (h : Inv hon
       | none => simp only [step, hc, hd]; exact h
       | some d =>
         simp only [step, hc, hd]
-        have := WF_inputD now s.l s.dead d a h.wf h.wf2
-        exact ⟨this.1, this.2,
-          InvL_inputD hw h.wf h.objs h.cls now s.dead d a (fun _ => ⟨c, g, i, hc, hd⟩), h.cls⟩
+        by_cases hgate : cryptGate ciph (wrap d) = .ok d
+        · rw [if_pos hgate]
+          have := WF_inputD ciph now s.l s.dead (wrap d) a h.wf h.wf2
+          exact ⟨this.1, this.2,
+            InvL_inputD hw h.wf h.objs h.cls ciph now s.dead (wrap d) a (fun _ => ⟨c, g, i, d, hc, hd, hgate⟩), h.cls⟩
+        · rw [if_neg hgate]; exact h
   | forge b data now =>
     cases hb : honest b with
     | true => simp only [step, hb, if_true]; exact h
     | false =>
       simp only [step, hb, Bool.false_eq_true, if_false]
-      have := WF_inputD now s.l s.dead data b h.wf h.wf2
+      have := WF_inputD ciph now s.l s.dead data b h.wf h.wf2
       exact ⟨this.1, this.2,
-        InvL_inputD hw h.wf h.objs h.cls now s.dead data b (fun hh => by rw [hb] at hh; cases hh), h.cls⟩
+        InvL_inputD hw h.wf h.objs h.cls ciph now s.dead data b (fun hh => by rw [hb] at hh; cases hh), h.cls⟩
   | accept =>
     cases hg : (SessIn.accept s.l).got with
     | none => simp only [step, hg]; exact h
@@ -416,9 +423,10 @@ theorem inv_step {honest : String → Bool} (hw : WireOk) {s : Sys} (h : Inv hon
       have := WF_closeAll now s.l.accepts s.l h.wf h.wf2
       exact ⟨this.1, this.2, InvL_closeAll now s.l.accepts s.l h.objs, h.cls⟩
 
-theorem inv_run {honest : String → Bool} (hw : WireOk) (evs : List IEv) : ∀ s : Sys, Inv honest s → Inv honest (run honest s evs) := by
+theorem inv_run (ciph : Cipher) {honest : String → Bool} (hw : WireOk) (evs : List IEv) :
+    ∀ s : Sys, Inv honest s → Inv honest (run ciph honest s evs) := by
   induction evs with
   | nil => intro s h; exact h
-  | cons e rest ih => intro s h; exact ih _ (inv_step hw h e)
+  | cons e rest ih => intro s h; exact ih _ (inv_step ciph hw h e)
 
 end KcpVerif.C11Iso
